@@ -37,6 +37,7 @@ def step (s : St) (w : List String) : St × String :=
   | ["new", _, v] => ({ t := .empty, v := v.toNat! }, "ok")
   | ["ver", v] => ({ s with v := v.toNat! }, "ok")
   | ["layer"] => (s, "ok")
+  | "relevel" :: _ => (s, "ok")
   | ["ins", p, b] =>
     match parsePath p, unhex b with
     | some p, some b =>
